@@ -29,6 +29,8 @@ pub enum Op {
     Register(String, i64, i64, u64),
     Delete(String),
     Complete(Vec<String>, String),
+    /// swap_compacted_chunk(sources, target path, min, max, rows): what the compactor publishes with
+    Swap(Vec<String>, String, i64, i64, u64),
 }
 
 #[derive(Clone, Debug, PartialEq)]
@@ -63,6 +65,18 @@ pub fn apply(model: &mut Model, op: &Op) -> bool {
             if let Some(c) = model.get_mut(t) {
                 c.level = lvl;
             }
+            true
+        }
+        Op::Swap(srcs, t, a, b, rows) => {
+            // refused unless every source is still there; sources leave and the target enters together
+            if srcs.iter().any(|p| !model.contains_key(p)) {
+                return false;
+            }
+            let lvl = srcs.iter().filter_map(|p| model.get(p).map(|c| c.level)).max().unwrap_or(0) + 1;
+            for p in srcs {
+                model.remove(p);
+            }
+            model.insert(t.clone(), MChunk { min: *a, max: *b, rows: *rows, level: lvl });
             true
         }
     }
@@ -196,6 +210,17 @@ fn gen_ops(rng: &mut Rng, actor: usize, n: usize, shared_paths: &[String]) -> Ve
                     Op::Complete(srcs, t)
                 }
             }
+            8 => {
+                // the compactor's publication step: sources from the shared pool (all must still be there),
+                // a fresh target entering in the same catalog version
+                let t = format!("t/data/compacted/s{}_{}.parquet", actor, i);
+                let (a, b) = gen_interval(rng);
+                let k = 1 + rng.usize(3);
+                let mut srcs: Vec<String> = (0..k).map(|_| rng.pick(shared_paths).clone()).collect();
+                srcs.sort();
+                srcs.dedup();
+                Op::Swap(srcs, t, a, b, rng.below(50))
+            }
             4 if !mine.is_empty() => {
                 // re-register an own path with another interval
                 let p = rng.pick(&mine).clone();
@@ -228,6 +253,10 @@ pub async fn do_op(c: &dyn MetadataClient, op: &Op) -> Result<(), String> {
             .map_err(|e| e.to_string()),
         Op::Delete(p) => c.delete_chunk(p).await.map_err(|e| e.to_string()),
         Op::Complete(s, t) => c.complete_compaction(s, t).await.map_err(|e| e.to_string()),
+        Op::Swap(s, t, a, b, rows) => c
+            .swap_compacted_chunk(s, &ChunkMetadata { path: t.clone(), min_timestamp: *a, max_timestamp: *b, row_count: *rows, size_bytes: 10 + *rows })
+            .await
+            .map_err(|e| e.to_string()),
     }
 }
 
@@ -431,7 +460,8 @@ fn one_schedule(ctx: &Ctx, out: &mut Outcome, rng: &mut Rng, idx: u64) {
             );
         }
         if !op.ok {
-            let refusable = matches!(parse_op(&op.desc), Op::Complete(..)) && op.err.contains("not found in catalog");
+            let refusable = (matches!(parse_op(&op.desc), Op::Complete(..)) && op.err.contains("not found in catalog"))
+                || (matches!(parse_op(&op.desc), Op::Swap(..)) && op.err.contains("no longer in catalog"));
             let exhausted = op.err.to_lowercase().contains("retries");
             if !refusable && !exhausted {
                 out.violation(
@@ -471,6 +501,11 @@ fn parse_op(desc: &str) -> Op {
         Op::Register(strs[0].clone(), nums[0], nums[1], nums[2] as u64)
     } else if desc.starts_with("Delete") {
         Op::Delete(strs[0].clone())
+    } else if desc.starts_with("Swap") {
+        let tail = desc.rsplit('"').next().unwrap_or("");
+        let nums: Vec<i64> = tail.split(|c: char| !(c.is_ascii_digit() || c == '-')).filter(|s| !s.is_empty()).filter_map(|s| s.parse().ok()).collect();
+        let n = strs.len();
+        Op::Swap(strs[..n - 1].to_vec(), strs[n - 1].clone(), nums[0], nums[1], nums[2] as u64)
     } else {
         let n = strs.len();
         Op::Complete(strs[..n - 1].to_vec(), strs[n - 1].clone())
